@@ -17,6 +17,7 @@ def norm_bool(e):
 
 
 def run(ctx, rep):
+    TTL = K.expiry_field(ctx)
     rep.rule("R15.1", "a late reply is discarded: the expired test dominates every state write and callback invocation and returns")
     rep.rule("R15.2", "the outcome is written once and published last; only __init__/__call__ write it (= R13.5)")
     rep.rule("R15.3", "callbacks run once, in registration order; registering after readiness runs at once")
@@ -127,7 +128,7 @@ def run(ctx, rep):
     try:
         for ready in (False, True):
             for expd in (False, True):
-                got = bool(ev(whiles[0].test, {"self._is_ready": ready}, {"self._ttl.expired": lambda e=expd: e}))
+                got = bool(ev(whiles[0].test, {"self._is_ready": ready}, {"self.%s.expired" % TTL: lambda e=expd: e}))
                 okc = okc and got == ((not ready) and (not expd))
     except CannotEval:
         okc = False
@@ -156,7 +157,7 @@ def run(ctx, rep):
     try:
         for ready in (False, True):
             for expd in (False, True):
-                got = bool(ev(re_[0].value, {"self._is_ready": ready}, {"self._ttl.expired": lambda e=expd: e}))
+                got = bool(ev(re_[0].value, {"self._is_ready": ready}, {"self.%s.expired" % TTL: lambda e=expd: e}))
                 oke = oke and got == ((not ready) and expd)
     except (CannotEval, IndexError):
         oke = False
@@ -170,14 +171,14 @@ def run(ctx, rep):
     okp = bool(polls)
     for pn in polls:
         c = {A.src(x.ast): pol for x, pol in Q.dominating_conditions(gr, pn, domr)}
-        okp = okp and c.get("self._is_ready") is False and c.get("self._ttl.expired()") is False
+        okp = okp and c.get("self._is_ready") is False and c.get("self.%s.expired()" % TTL) is False
     rep.ob("R15.4", "AsyncResult.ready: never serves once ready or expired", okp,
            "poll_all() only when not ready and not expired" if okp else "ready polls the connection although ready/expired", fr.loc)
     outs = []
     for n in gr.live:
         if n.kind == "stmt" and isinstance(n.ast, ast.Return):
             c = {A.src(x.ast): pol for x, pol in Q.dominating_conditions(gr, n, domr)}
-            outs.append((A.src(n.ast.value), c.get("self._is_ready"), c.get("self._ttl.expired()")))
+            outs.append((A.src(n.ast.value), c.get("self._is_ready"), c.get("self.%s.expired()" % TTL)))
     okro = ("True", True, None) in outs and ("False", False, True) in outs and ("self._is_ready", False, False) in outs
     rep.ob("R15.4", "AsyncResult.ready: True if ready, False if expired, else the flag after polling", okro,
            "three return sites with the expected guards" if okro else "ready returns %s" % outs, fr.loc)
@@ -276,9 +277,9 @@ def run(ctx, rep):
            "async_request does not apply the given timeout exactly when one was given (`is not None`): a timeout of 0 must expire at once",
            far.loc)
     fse = ctx.func(AR + ".set_expiry")
-    oks = any(isinstance(n, ast.Assign) and K.self_attr(n.targets[0], "_ttl") and
+    oks = any(isinstance(n, ast.Assign) and K.self_attr(n.targets[0], TTL) and
               A.src(n.value) == "Timeout(%s)" % A.params(fse.node)[1] for n in A.walk(fse.node))
-    rep.ob("R15.6", "set_expiry stores an absolute deadline", oks, "self._ttl = Timeout(timeout)" if oks else
+    rep.ob("R15.6", "set_expiry stores an absolute deadline", oks, "self.%s = Timeout(timeout)" % TTL if oks else
            "set_expiry no longer stores Timeout(timeout)", fse.loc)
     ftm = ctx.func("rpyc.utils.helpers.timed.__call__")
     body = [s for s in ftm.node.body if not (isinstance(s, ast.Expr) and isinstance(s.value, ast.Constant))]
